@@ -2,8 +2,9 @@
 EXTENDS TlsAccept, TLC, Json
 VARIABLES row, done
 Init == /\ row \in [kind : {"tls"}, chain : {"ca", "self", "unknown"}, expired : BOOLEAN, nameOK : BOOLEAN,
-                    certs : BOOLEAN, hosts : BOOLEAN, root : BOOLEAN, path : {"direct", "connect", "httpsproxy"},
+                    certs : BOOLEAN, hosts : BOOLEAN, root : BOOLEAN, rootIsLeaf : BOOLEAN, path : {"direct", "connect", "httpsproxy"},
                     scope : {"request", "session", "sibling", "override", "override_certs"}]
+        /\ (row.rootIsLeaf => (row.chain = "self" /\ ~row.root))   \* the server's own certificate added as the root
         /\ done = FALSE
 Next == ~done /\ done' = TRUE /\ UNCHANGED row
 Spec == Init /\ [][Next]_<<row, done>>
